@@ -148,6 +148,13 @@ def gen_el0(rng, depth, ids):
         return ('circle', a, None)
     if k < 6:
         a += [('cx', length(rng)), ('cy', length(rng)), ('rx', length(rng).lstrip('-+') or '1'), ('ry', length(rng).lstrip('-+') or '2')]
+        if rng.chance(0.3):
+            # one centre coordinate left at its SVG default (0): it must not be written by the transform
+            drop = rng.choice(['cx', 'cy'])
+            if rng.chance(0.6):    # unit-free numbers: the element has a computable box
+                geo = {'cx': str(rng.range(-40, 40)), 'cy': str(rng.range(-40, 40)), 'rx': '%d.5' % rng.range(0, 9), 'ry': str(rng.range(1, 30))}
+                a = [(k, geo.get(k, v)) for k, v in a]
+            a = [kv for kv in a if kv[0] != drop]
         return ('ellipse', a, None)
     if k < 8:
         a += [('x1', length(rng)), ('y1', length(rng)), ('x2', length(rng)), ('y2', length(rng))]
